@@ -16,7 +16,8 @@ LEVEL_TEXT = (
 )
 TRUSTED = "harness model of 'names registered so far'; vlib.snapshot; vlib.invariants"
 RULE = (
-    "mode a: script of Graph.append/extend/insert_before/insert_after/Node(graph=)/remove/re-add with explicit, None "
+    "mode a: script of Graph.append/extend/insert_before/insert_after/Node(graph=)/remove/re-add, renames of live members "
+    "and moves inside the graph (a move registers the names the node has then) with explicit, None "
     "and generated-looking names (val_k, node_Op_k near the counters); mode b: model with 1-10 nodes over main graph, "
     "nested subgraphs and a function, names drawn from a tiny alphabet incl. None and '' so duplicates and fresh-name "
     "collisions (w, w, w_1) occur, then NameFixPass; mode c: rename_values over initializers of two graphs, inputs and "
@@ -45,6 +46,8 @@ def strategy(tier, phase):
         st.tuples(st.just("add"), st.integers(0, 4), st.lists(nodespec, min_size=1, max_size=3), st.integers(0, 9)).map(list),
         st.tuples(st.just("remove"), st.integers(0, 9)).map(list),
         st.tuples(st.just("readd"), st.integers(0, 9), st.integers(0, 3), st.integers(0, 9)).map(list),
+        st.tuples(st.just("rename"), st.integers(0, 9), st.integers(0, 2), st.integers(2, len(NAME_CODES) - 1)).map(list),
+        st.tuples(st.just("move"), st.integers(0, 9), st.integers(2, 3), st.integers(0, 9)).map(list),
     )
     mode_a = st.fixed_dictionaries({"mode": st.just("a"), "inputs": st.lists(code, max_size=3), "inits": st.lists(st.integers(2, len(NAME_CODES) - 1), max_size=2),
                                     "ops": st.lists(op_a, min_size=1, max_size=14)})
@@ -98,6 +101,7 @@ def run_a(case):
     removed = []
     saw_generated_explicit = False
     auto_after = False
+    renamed_live = moved_after_rename = False
 
     def make_nodes(specs):
         out = []
@@ -111,7 +115,7 @@ def run_a(case):
     def add(how, nodes, anchor_i, label):
         nonlocal saw_generated_explicit, auto_after
         before = [(n.name, [o.name for o in n.outputs]) for n in nodes]
-        members = list(g)
+        members = [x for x in g if not any(x is y for y in nodes)]  # (a move: the anchor is another member)
         try:
             if how == 0 or not members and how in (2, 3):
                 for n in nodes:
@@ -203,11 +207,33 @@ def run_a(case):
             if removed:
                 n = removed.pop(op[1] % len(removed))
                 add(op[2] % 4, [n], op[3], "re-" + LABELS[op[2] % 4])
+        elif op[0] == "rename":
+            # an explicit name given after the object joined the graph: not registered by that (see ASSUMPTIONS) ...
+            members = list(g)
+            if members:
+                n = members[op[1] % len(members)]
+                nm = NAME_CODES[op[3] % len(NAME_CODES)]
+                if nm:
+                    if op[2] == 0 or not n.outputs:
+                        n.name = nm
+                    else:
+                        o = n.outputs[(op[2] - 1) % len(n.outputs)]
+                        if not any(x.name == nm for x in list(g.inputs) + list(g.initializers.values())):
+                            o.name = nm
+                    renamed_live = True
+        elif op[0] == "move":
+            # ... but handing the node to the graph again (a move inside the graph) registers the names it has then
+            members = list(g)
+            if len(members) >= 2:
+                n = members[op[1] % len(members)]
+                add(op[2], [n], op[3], "move-" + LABELS[op[2]])
+                if renamed_live:
+                    moved_after_rename = True
         else:
             raise Malformed()
         if fails:
             break
-    return fails, (saw_generated_explicit and auto_after), ["mode_a"] + (["generated_looking_explicit"] if saw_generated_explicit else [])
+    return fails, (saw_generated_explicit and auto_after), ["mode_a"] + (["generated_looking_explicit"] if saw_generated_explicit else []) + (["moved_after_live_rename"] if moved_after_rename else [])
 
 
 # ------------------------------------------------------------------------------------------------ mode b
